@@ -280,13 +280,20 @@ Definition down_pos (d : doc) (count : Z) (pc : option Z) : Z :=
   let column := match pc with None => cursor_position_col d | Some c => c end in
   translate_row_col_to_index d (cursor_position_row d + count) column - dcur d.
 
-(* None = AssertionError (assert count >= 1) *)
+(* A negative count moves the other way (fix 46fed32; before it: assert
+   count >= 1).  The result type stays an option (None = AssertionError) for
+   the callers in other models; it is never None any more
+   (Proofs/C02_Lines.v: up_down_total). *)
 Definition get_cursor_up_position (d : doc) (count : Z) (pc : option Z) : option Z :=
-  if count <? 1 then None else Some (up_pos d count pc).
+  if count <? 0 then Some (down_pos d (- count) pc) else Some (up_pos d count pc).
 Definition get_cursor_down_position (d : doc) (count : Z) (pc : option Z) : option Z :=
-  if count <? 1 then None else Some (down_pos d count pc).
+  if count <? 0 then Some (up_pos d (- count) pc) else Some (down_pos d count pc).
 
+(* fix 1019c4b: max(0, len(rstrip) - 1) - col *)
 Definition last_non_blank_of_current_line_position (d : doc) : Z :=
+  Z.max 0 (len (rstrip_by is_space (current_line d)) - 1) - cursor_position_col d.
+(* the function as it stood before the fix (finding C02-F1) *)
+Definition last_non_blank_of_current_line_position_pinned (d : doc) : Z :=
   len (rstrip_by is_space (current_line d)) - cursor_position_col d - 1.
 
 Definition get_column_cursor_position (d : doc) (column : Z) : Z :=
@@ -317,7 +324,7 @@ Definition find_previous_matching_line (d : doc) (count : Z) : option Z :=
   | None => None
   end.
 
-(* outer None = AssertionError from get_cursor_up/down_position *)
+(* outer None = AssertionError from get_cursor_up/down_position (cannot happen any more) *)
 Definition start_of_paragraph (d : doc) (count : Z) (before : bool) : option Z :=
   match find_previous_matching_line d count with
   | Some li =>
